@@ -11,8 +11,8 @@
     [itf8_Decode] are regenerated from the Go source on every run. *)
 From Coq Require Import ZArith List Bool.
 From Hts Require Import Base.Prim Base.DecBase Generated
-  Model.DecText Model.DecBam Model.DecIndex Model.DecCram Model.DecBgzf
-  Proofs.DecText Proofs.DecBam Proofs.DecIndex Proofs.DecCram Proofs.DecBgzf.
+  Model.DecText Model.DecBam Model.DecIndex Model.DecCram Model.DecBgzf Model.DecSam Model.Fai Model.DecQuery
+  Proofs.DecText Proofs.DecBam Proofs.DecIndex Proofs.DecCram Proofs.DecBgzf Proofs.DecSam Proofs.DecQuery.
 Open Scope Z_scope.
 
 (* ------------------------------------------------ CIGAR tables and accessors *)
@@ -65,12 +65,32 @@ Theorem sam_empty_line_rejected : forall l, zlen l = 0 -> sam_field_count l = Er
 Proof. exact sam_empty_line_rejected_gen. Qed.
 Print Assumptions sam_empty_line_rejected.
 
-(** ParseAux: for every text and every answer of strconv. (That the returned
-    Aux is accepted by the accessors is checked by the correspondence and the
-    fuzz run only: no theorem.) *)
+(** ParseAux: for every text and every answer of strconv. *)
 Theorem parse_aux_total : forall lib text, safe (parse_aux lib text).
 Proof. exact parse_aux_total_gen. Qed.
 Print Assumptions parse_aux_total.
+
+(** Every Aux that ParseAux returns is accepted by Tag, Type, Kind, Value and
+    String, hence by MarshalSAM and by buildAux (bam.Writer.Write). *)
+Theorem parse_aux_value_safe :
+  forall lib text a, all_bytes text = true -> zlen text < 2 ^ 31 -> parse_aux lib text = Ok a -> aux_wf a.
+Proof. exact parse_aux_value_safe_gen. Qed.
+Print Assumptions parse_aux_value_safe.
+
+(** Record.UnmarshalSAM as a whole: field split and count, flags / positions /
+    mapping quality (strconv), reference look-ups, ParseCigar, NewSeq/contract,
+    Cigar.IsValid, QUAL handling, the aux loop with ParseAux. *)
+Theorem unmarshal_sam_total :
+  forall lib b, all_bytes b = true -> zlen b < 2 ^ 31 -> safe (unmarshal_sam lib b).
+Proof. exact unmarshal_sam_total_gen. Qed.
+Print Assumptions unmarshal_sam_total.
+
+(** ... and the record it returns is accepted by End/Bin/Len, IsValid, Lengths,
+    Seq.Expand (String, MarshalSAM), every Aux accessor and buildAux. *)
+Theorem unmarshal_sam_value_safe :
+  forall lib b r, all_bytes b = true -> zlen b < 2 ^ 31 -> unmarshal_sam lib b = Ok r -> safe (srec_accessors r).
+Proof. exact unmarshal_sam_value_safe_gen. Qed.
+Print Assumptions unmarshal_sam_value_safe.
 
 (* --------------------------------------------------------------------- BAM *)
 
@@ -98,6 +118,17 @@ Theorem bam_record_value_safe :
 Proof. exact bam_record_value_safe_gen. Qed.
 Print Assumptions bam_record_value_safe.
 
+(** The BAM reader top level: NewReader (magic, header text, reference records)
+    and Read called until its first error, over every byte string the BGZF layer
+    can deliver (a source that fails at offset k is observed as the string cut at
+    k): no panic, termination, and every record returned on the way is safe. *)
+Theorem bam_reader_total :
+  forall lib refs_ok omit s, all_bytes s = true ->
+    safe (bam_reader lib refs_ok omit s) /\
+    forall rs, bam_reader lib refs_ok omit s = Ok rs -> Forall (fun r => safe (record_accessors r)) rs.
+Proof. exact bam_reader_ok. Qed.
+Print Assumptions bam_reader_total.
+
 (** Header.DecodeBinary (lText, nRef, lName feeding make; name[n-1]). *)
 Theorem binary_header_total : forall lib refs_ok s, safe (decode_binary_header lib refs_ok s).
 Proof. exact decode_binary_header_total_gen. Qed.
@@ -117,6 +148,23 @@ Theorem csi_read_total : forall s, safe (csi_read_from s).
 Proof. exact csi_read_from_total_gen. Qed.
 Print Assumptions csi_read_total.
 
+(** Value safety of the index readers on the query side: csi.Index.Chunks answers
+    every interval (empty, reversed, negative, beyond the geometry) on every
+    geometry csi.ReadFrom accepts, and internal.Index.Chunks (BAI, tabix) every
+    interval for every length of the linear index: rejected / nil, or the tile
+    index is inside Intervals and the uint32 bin enumeration terminates.
+    (sort.Search, the merge strategies and the writers are exercised by the
+    fuzz run only.) *)
+Theorem csi_chunks_query_total :
+  forall minShift depth beg end_, 0 <= minShift -> 0 <= depth <= 9 -> minShift + 3 * depth <= 63 ->
+    safe (csi_chunks_query minShift depth beg end_).
+Proof. exact csi_chunks_query_total_gen. Qed.
+Print Assumptions csi_chunks_query_total.
+
+Theorem bai_chunks_query_total : forall nintv beg end_, 0 <= nintv -> safe (bai_chunks_query nintv beg end_).
+Proof. exact bai_chunks_query_total_gen. Qed.
+Print Assumptions bai_chunks_query_total.
+
 (** fai.ReadFrom's conversion of a five field record: the *csv.ParseError panic
     of mustAtoi is the only panic and it is recovered. *)
 Theorem fai_record_total : forall conv fields, zlen fields = 5 -> safe (fai_record conv fields).
@@ -128,6 +176,13 @@ Theorem fai_position_value_safe :
   forall conv fields r p, zlen fields = 5 -> fai_record conv fields = Ok r -> 0 <= p < f_len r -> safe (fai_position r p).
 Proof. exact fai_position_value_safe_gen. Qed.
 Print Assumptions fai_position_value_safe.
+
+(** fai.NewIndex (model of the C19 development): an index or one of its four
+    errors on every byte string. (bufio.Scanner's token limit is an error
+    return of the library and is not modelled.) *)
+Theorem fai_newindex_total : forall file, safe (newindex file).
+Proof. exact fai_newindex_total_gen. Qed.
+Print Assumptions fai_newindex_total.
 
 (* -------------------------------------------------------------------- CRAM *)
 
@@ -196,13 +251,15 @@ Proof. vm_compute. repeat split; reflexivity. Qed.
     when a guard is missing — the defects that were repaired in the library:
     an M5 value of 34 hex digits overruns the 16 byte digest buffer; a one byte
     Aux (early NUL in a Z field) breaks every accessor; txt[1] of "XY:B:c";
-    names[len(names)-1] of an empty tabix name block. *)
+    names[len(names)-1] of an empty tabix name block; csi reg2bins on the
+    unvalidated empty interval (0,0) never leaves its level 0 loop. *)
 Example guards_are_needed :
   (exists v, is_panic (hex_decode 16 0 v (S (length v))) = true)
   /\ is_panic (aux_value [88]) = true
   /\ inb [99] 1 = false
-  /\ inb (@nil Z) (zlen (@nil Z) - 1) = false.
+  /\ inb (@nil Z) (zlen (@nil Z) - 1) = false
+  /\ reg2bins 0 0 14 5 = Stuck.
 Proof.
   split; [exact hex_decode_unguarded_panics|]. split; [exact (proj1 short_aux_panics)|].
-  split; [exact parse_aux_B_short_would_panic|exact tabix_empty_names_would_panic].
+  split; [exact parse_aux_B_short_would_panic|]. split; [exact tabix_empty_names_would_panic|exact reg2bins_empty_query_stuck].
 Qed.
